@@ -173,6 +173,19 @@ def families(tier="quick"):
                   for i, b in enumerate(brs)] + \
                  [{"name": "br0_b_%d" % i, "text": "main:\n    li t2, 0\nback:\n    addi t2, t2, 1\n    %s, back\n    mv a0, t2\n" % b + EXIT}
                   for i, b in enumerate(brs)]
+    # extreme immediates and stack positions: the offset arithmetic of the value analysis and of the stack lints at the
+    # edges of i32 (no panic anywhere in the pipeline, and the claims still true)
+    X = ["addi sp, sp, 2047", "addi sp, sp, -2048", "lw t1, 2047(sp)", "sw t1, -2048(sp)", "li t0, 2147483647", "li t0, -2147483648",
+         "add sp, sp, t0", "sub sp, sp, t0", "addi t0, t0, -1", "sw s0, 2147483647(sp)", "lw s0, -2147483648(sp)", "slli t0, t0, 31"]
+    fam["extreme"] = [{"name": "ext_%x_%x_%x" % c, "text": wrap([X[c[0]], X[c[1]], X[c[2]]])}
+                      for c in itertools.product(range(len(X)), repeat=3)]
+    # a conditional inside a loop: facts must survive the join inside the body AND the back edge
+    N = ["sw s0, 4(sp)", "li s0, 7", "lw s0, 4(sp)", "addi sp, sp, -4", "addi sp, sp, 4", "sw t0, 0(sp)", "mv t0, s0"]
+    nd = 4 if tier == "quick" else 5
+    fam["nest"] = [{"name": "nest_" + "_".join("%x" % i for i in c),
+                    "text": "main:\n    addi sp, sp, -8\n    %s\nhead:\n    %s\n    beqz a0, skip\n    %s\nskip:\n    %s\n    bnez t2, head\n%s    addi sp, sp, 8\n" %
+                            (N[c[0]], N[c[1]], N[c[2]], N[c[3]], ("    %s\n" % N[c[4]]) if nd == 5 else "") + EXIT}
+                   for c in itertools.product(range(len(N)), repeat=nd)]
     # interrupt handlers: every 3-instruction body between the two uscratch swaps; a store is only
     # generated while a0 holds the save-area pointer (a store through the interrupted program's a0
     # could alias the save area: the analysis assumes tracked memory is reached only through its base)
